@@ -91,6 +91,19 @@ fn gen(rng: &mut Rng, _idx: u64, tier: Tier) -> Case {
             lines.push((if rng.chance(0.1) { rng.range(0, 50_000) } else { 0 }, gen::line_of(rng, &f, false), "crowd".into()));
         }
     }
+    // very rarely the sky is extremely crowded: more than a thousand aircraft, learned in one big read
+    if rng.chance(0.003) {
+        let crowd = rng.range(1000, 1100) as usize;
+        let base = (rng.bits(24) as u32 | 0x200000) & 0xFFF000;
+        let mut blob: Vec<u8> = vec![];
+        for i in 0..crowd {
+            let mut ac = gen::aircraft(rng, base + 1 + i as u32);
+            let k = *rng.pick(&[Kind::Df11, Kind::Ident, Kind::AirPos, Kind::Df4, Kind::Df5]);
+            let f = gen::frame(rng, &mut ac, k, true);
+            blob.extend(gen::line_of(rng, &f, false));
+        }
+        lines.push((0, blob, "big-crowd".into()));
+    }
     for _ in 0..n {
         let a = rng.below(n_ac as u64) as usize;
         let dt = gen::gap_us(rng, d).min(8_000_000);
@@ -123,6 +136,7 @@ fn gen(rng: &mut Rng, _idx: u64, tier: Tier) -> Case {
         }
     }
     gen::clock_steps_back(rng, &mut lines, 0.06);
+    gen::long_uptime(rng, &mut lines, 0.03);
     let ch = *rng.pick(&[Chunking::Line, Chunking::Line, Chunking::Multi, Chunking::Pieces]);
     let mut script = Script::file(args, vec![]);
     script.tcp = rng.chance(0.25);
